@@ -457,3 +457,10 @@ for p in ["C02", "C04", "C05", "C01"]:
     CHECKS[p]["harnesses"].append(H_SNAPSESSION_THOROUGH)
 CHECKS["C12"]["explanation"] += " SNAPSHOT SESSION: a compacted leader's replicateTo against a real lagging follower: one InstallSnapshot, then AppendEntries from the snapshot boundary, until caught up."
 CHECKS["C12"]["outside"] = "election liveness within a bounded number of timeouts (randomised timers; not decided); sessions are bounded to W=2/3 windows, a freshly elected or compacted leader and one follower"
+H_RESTORESESSION = {"fn": "vh_restore_session", "what": "two real objects after a user Restore on the leader (gap-tolerant store): both still hold the old entry, the leader's snapshot sits at the burned index in its current term, its log continues above; "
+                    "replicateTo -> sendLatestSnapshot -> the follower's real installSnapshot/runFSM -> AppendEntries from the burned index: the follower's FSM is restored from the user snapshot and nothing from before the restore is applied after it",
+                    "bounds": "W=3: old entry base+1 on both, burned index base+2, one entry above it; nextIndex in {base+1, base+2}; follower applied base or base+1; MaxAppendEntries in {1,2}", "covers": ["snapsession.done", "snapsession.fed-fsm"], "opts": {"max_paths": 200000}}
+CHECKS["C20"]["harnesses"].append(H_RESTORESESSION)
+CHECKS["C12"]["harnesses"].append(dict(H_RESTORESESSION, quick={"skip": True}))
+CHECKS["C20"]["explanation"] += " FOLLOWER SESSION: after the restore the leader's real replication code brings a real follower (still holding the old entries) to the restored state through InstallSnapshot at the burned index followed by AppendEntries."
+CHECKS["C20"]["outside"] = "concurrent Apply goroutines beyond the in-flight list; followers holding stale entries at or above the burned index (known finding D3); monotonic stores in the follower session; the trailing no-op of Raft.Restore is represented by the entry above the burned index"
